@@ -1628,10 +1628,10 @@ Proof.
   intros Hcr Hst Hwf Hn Hnc Hc' Hbad. destruct (wf_doc_items ds Hwf) as [Hitems [Hadj _]].
   destruct (wf_firstn j ds Hitems Hadj) as [Hpre Hpadj]. pose proof (wf_nth j ds it Hitems Hn) as Hit.
   destruct (item_tlines_first st it Hst Hit Hnc) as [c0 [rest [E [Hcmt [Hrest _]]]]].
-  unfold site_line. rewrite Hn. rewrite (tlines_split st ds j it Hn), E, <- !app_assoc.
-  replace (tlines T st (firstn j ds) ++ comment_tlines [] (item_comment it) ++ PStmt [] c0 :: rest ++ tlines T st (skipn (S j) ds))
-    with ((tlines T st (firstn j ds) ++ comment_tlines [] (item_comment it)) ++ PStmt [] c0 :: rest ++ tlines T st (skipn (S j) ds))
-    by (rewrite <- app_assoc; reflexivity).
+  unfold site_line. rewrite Hn. rewrite (tlines_split st ds j it Hn), E.
+  replace (tlines T st (firstn j ds) ++ (comment_tlines [] (item_comment it) ++ PStmt [] c0 :: rest) ++ tlines T st (skipn (S j) ds))
+    with ((tlines T st (firstn j ds) ++ comment_tlines [] (item_comment it)) ++ PStmt [] c0 :: (rest ++ tlines T st (skipn (S j) ds)))
+    by (rewrite <- !app_assoc; reflexivity).
   replace (length (tlines T st (firstn j ds)) + length (clines (item_comment it)))%nat
     with (length (tlines T st (firstn j ds) ++ comment_tlines [] (item_comment it)))
     by (rewrite app_length; unfold comment_tlines; rewrite map_length; reflexivity).
